@@ -252,6 +252,9 @@ def _revert_variable(var_type, value):
         return value
     elif var_type in datatypes.FLOAT_TYPES:
         return value
+    elif value < 0:
+        # Hex notation has no sign, write negative numbers in decimal
+        return f"{value:d}"
     else:
         return f"0x{value:02X}"
 
